@@ -21,16 +21,36 @@ def dtypeOfName (s : String) : Except String (Option DType) :=
 def getFrame (j : Json) : Except String SFrame := do
   pure { key := (← getNat j "key"), seg := (← getNat j "seg"), pix := (← getNatList j "pix") }
 
+/-- an optional boolean field -/
+def optBool (j : Json) (k : String) (dflt : Bool) : Except String Bool :=
+  match j.getObjVal? k with
+  | .error _ => pure dflt
+  | .ok .null => pure dflt
+  | .ok v => v.getBool?
+
+/-- `_locations_preserved` as the harness reads it off the source image items: "yes" / "no" / "unknown" -/
+def getLoc (j : Json) : Except String (Option Bool) :=
+  match j.getObjVal? "loc_preserved" with
+  | .error _ => pure (some true)
+  | .ok v => do
+    match (← v.getStr?) with
+    | "yes" => pure (some true)
+    | "no" => pure (some false)
+    | "unknown" => pure none
+    | s => throw s!"bad loc_preserved {s}"
+
 def getStored (j : Json) : Except String Stored := do
   let fr ← (← getArr j "frames").toList.mapM getFrame
   pure { type := (← getSegType j), segNums := (← getNatList j "stored"), bitsStored := (← getNat j "bits"),
          mfv := (← getNat j "mfv"), bg := (← getNat j "bg"), npix := (← getNat j "npix"), frames := fr,
-         refs := (← getNatList j "refs"), frameSrcs := (← getNatList j "frame_srcs") }
+         refs := (← getNatList j "refs"), frameSrcs := (← getNatList j "frame_srcs"),
+         tiledFull := (← optBool j "tiled_full" false), locPreserved := (← getLoc j),
+         singleSource := (← optBool j "single_source" true), segIndexed := (← optBool j "seg_indexed" true) }
 
 def getReq (j : Json) : Except String Req := do
   pure { keys := (← getNatList j "keys"), segs := (← getNatList j "segs"), combine := (← getBool j "combine"),
          relabel := (← getBool j "relabel"), rescale := (← getBool j "rescale"), skipOverlap := (← getBool j "skip"),
-         dtype := (← dtypeOfName (← getStr j "dtype")) }
+         dtype := (← dtypeOfName (← getStr j "dtype")), ignoreSpatial := (← optBool j "ignore_spatial" false) }
 
 def getMode (j : Json) : Except String Mode := do
   match (← getStr j "mode") with
